@@ -266,6 +266,10 @@ def parse_file(path, rel, ctx, pass_no, raw_items):
                 continue
         if x in ("struct", "enum") and re.match(r"[A-Za-z_]", p.peek(1) or ""):
             kind = p.next(); name = p.next()
+            nlife = 0
+            if p.peek() == "<":
+                rawg, _ = angle_args(p.t, p.i)
+                nlife = sum(1 for a in rawg if a and a[0].startswith("'"))
             params, gb = generics(p)
             wb = where_clause(p, ("{", "(", ";"))
             body_open = p.peek()
@@ -279,7 +283,7 @@ def parse_file(path, rel, ctx, pass_no, raw_items):
             if not pending_attr_skip:
                 q = "::".join(modstack[-1] + (name,))
                 ctx.scopes.setdefault(modstack[-1], {})[name] = q
-                raw_items.append(("type", kind, q, modstack[-1], params, body, is_pub))
+                raw_items.append(("type", kind, q, modstack[-1], params, body, is_pub, nlife, gb + wb))
             pending_attr_skip = False; is_pub = False
             continue
         if x == "trait" and re.match(r"[A-Za-z_]", p.peek(1) or ""):
@@ -408,10 +412,12 @@ def main():
         return resolve
 
     structs, impls, futures = [], [], set()
+    meta = {}
     for it in raw:
         if it[0] != "type":
             continue
-        _, kind, q, mod, params, body, is_pub = it
+        _, kind, q, mod, params, body, is_pub, nlife, tbounds = it
+        meta[q] = dict(lifetimes=nlife, params=params, bounds=tbounds)
         res = resolver(mod)
         fields = []
         if kind == "struct":
@@ -518,6 +524,17 @@ def main():
         for trait, q, bl in impls:
             rows.append("  mkI %s \"%s\" [%s]" % (trait, q, "; ".join("(%d, %s)" % b for b in bl)))
         f.write(";\n".join(rows) + "\n].\n")
+    import json
+    info = []
+    for q, params, fields, is_pub in structs:
+        m = meta[q]
+        kinds = []
+        for pn in params:
+            bs = [b for (n, bl) in m["bounds"] if n == pn for b in bl]
+            kinds.append("mutex" if "RawMutex" in bs or pn == "MutexType" else ("ringbuf" if "RingBuf" in bs else "plain"))
+        info.append(dict(name=q, lifetimes=m["lifetimes"], params=params, kinds=kinds, public=is_pub, future=q in futures))
+    json.dump(dict(types=info, impls=[dict(trait=t, target=q, bounds=bl) for t, q, bl in impls]),
+              open(os.path.splitext(out)[0] + ".json", "w"), indent=1)
     print("rs2coq_types: %d types, %d Send/Sync impls, %d futures/streams -> %s" % (len(structs), len(impls), len(futures), out))
 
 
